@@ -1208,7 +1208,8 @@ fn oversized_case(prop: &str, idx: u64, tmproot: &Path) -> CaseRec {
     let json: Option<serde_json::Value> = stdout.find('[').and_then(|p| serde_json::from_str(&stdout[p..]).ok());
     let kinds: Vec<String> = (0..2).map(|i| json.as_ref().and_then(|j| j.pointer(&format!("/{i}/result/kind")).and_then(|v| v.as_str()).map(|s| s.to_string())).unwrap_or("?".into())).collect();
     let mut fails = vec![];
-    if kinds.iter().any(|k| k == "timeout") {
+    // (the same broken pipe surfaces as a timeout or, when the write hits it first, as an unknown exit: one finding)
+    if kinds.iter().any(|k| k == "timeout") || (idx != 0 && kinds != ["success", "success"]) {
         let class = if idx == 0 { "C14:spurious-timeout" } else { "C14:spurious-timeout-shell-left-oversized-expression" };
         fails.push((class.to_string(), format!("a shell expression of 150 KB whose first line is {:?}: reported {:?} after {wall} ms (document limit 15 min, no per-test limit), exit status {code}", head.trim_end(), kinds)));
     } else if kinds != ["success", "success"] {
